@@ -39,7 +39,7 @@ def val_text(v):
     return v
 
 
-def render_c(items, seed=0, fortran=False, uid="x"):
+def render_c(items, seed=0, fortran=False, uid="x", plain=False):
     """
     Returns (text, lines_of_item) where lines_of_item[i] (0-based item index) is the list of
     physical line numbers (1-based) that the item contributes as counted lines.
@@ -69,8 +69,8 @@ def render_c(items, seed=0, fortran=False, uid="x"):
     ncode = 0
     for i, it in enumerate(items):
         k = it["k"]
-        # uncounted decoration before the item
-        r = rnd.random()
+        # uncounted decoration before the item (plain: exactly one physical line per item)
+        r = 1.0 if plain else rnd.random()
         if r < 0.12:
             out.append("")
         elif r < 0.22:
@@ -79,12 +79,12 @@ def render_c(items, seed=0, fortran=False, uid="x"):
             ncode += 1
             if fortran:
                 v = rnd.choice([f"{uid}{ncode} = {ncode}", f"call f({uid}{ncode})", f"{uid}{ncode} = 'a!b' // \"c&d\""])
-                if rnd.random() < 0.25:
+                if not plain and rnd.random() < 0.25:
                     ls = emit(f"{uid}{ncode} = {ncode} + &", f"  & {ncode}")
                 else:
                     ls = emit(v + rnd.choice(["", "", " ! c"]))
             else:
-                if rnd.random() < 0.2:
+                if not plain and rnd.random() < 0.2:
                     ls = emit(f"int {uid}{ncode}", f"  = {ncode};")
                 else:
                     ls = emit(rnd.choice([f"int {uid}{ncode} = {ncode};", f"char *{uid}{ncode} = \"/* no */ // no\";",
@@ -113,7 +113,7 @@ def render_c(items, seed=0, fortran=False, uid="x"):
         else:
             raise ValueError(k)
         bad = k in ("if", "elif") and it["c"]["t"] == "bad"
-        if (not bad) and (not fortran) and " " in txt and rnd.random() < 0.15:
+        if (not bad) and (not fortran) and (not plain) and " " in txt and rnd.random() < 0.15:
             a, b = txt.split(" ", 1)
             ls = emit(hashpfx() + a + " \\", "   " + b + trail())
         else:
